@@ -343,7 +343,7 @@ def run(ctx):
         return mc
 
     seed = str(ctx.seed)
-    ntraces = ctx.pick(1200, 24000)
+    ntraces = ctx.pick(1200, 16000)
     simw = 8 if not dev_workers else min(8, dev_workers)
     jobs = {
         "mc": do_mc,
@@ -397,13 +397,11 @@ def run(ctx):
                  describe=lambda c, e, r: "symbol %r: FzfChars says %s, real code says %s" % (c["sym"], e, r.get("got")))
 
     # (1) E in-package
-    cases, seen = [], set()
+    bykey = {}
     for k in ("doc1", "doc", "basic", "corner"):
         for c in out.get(k, ([], None, None))[0]:
-            key = json.dumps([c["cls"], c["q"], c["o"]], sort_keys=True)
-            if key not in seen:
-                seen.add(key)
-                cases.append(c)
+            bykey.setdefault(json.dumps([c["cls"], c["q"], c["o"]], sort_keys=True), c)
+    cases = [bykey[k] for k in sorted(bykey)]       # TLC prints in worker order: sort, so that a seed fixes the sample
     log("E: %d distinct (query, options) cases exported by TLC" % len(cases))
     _, bad = two_pass(ctx, h, "TestVerifQueryReplay", cases, exp_replay, "replay", env, describe_replay, kf_replay)
 
@@ -415,7 +413,7 @@ def run(ctx):
     two_pass(ctx, h, "TestVerifQueryFilter", sample, exp_filter, "filter", env, describe_filter, kf_filter)
 
     # (3) J
-    inputs = gen_inputs(ctx.rng, ctx.pick(2500, 30000), 12)
+    inputs = gen_inputs(ctx.rng, ctx.pick(4000, 40000), 12)
     recs, mm = judge_flow(ctx, h, inputs, W)
 
     # evidence
